@@ -15,7 +15,7 @@ import (
 )
 
 func (ex *Exec) newDrawVar(op, label string, s smt.Sort, lo, hi *big.Int) *smt.Term {
-	name := fmt.Sprintf("%s#%d", label, len(ex.draws))
+	name := fmt.Sprintf("%s#%d:%s", label, len(ex.draws), op)
 	v := ex.b.Var(name, s, lo, hi)
 	if ex.solver != nil {
 		ex.solver.AssertRange(v)
